@@ -223,6 +223,9 @@ def keptLines (m : Marked) : List Bytes := (m.filter Prod.snd).map Prod.fst
 /-- only neutral lines are left out -/
 def OnlyNeutralDropped (T : Tables) (m : Marked) : Prop := ∀ p ∈ m, p.2 = false → Neutral T p.1 = true
 
+instance (T : Tables) (m : Marked) : Decidable (OnlyNeutralDropped T m) := by
+  unfold OnlyNeutralDropped; infer_instance
+
 /-- of one answer per line of `allLines m`, those to the lines that stay -/
 def keptOf {α : Type} : Marked → List α → List α
   | [], _ => []
@@ -257,5 +260,14 @@ def judgeIndep (T : Tables) (m : Marked) (outsAll outsKept : List Bytes) : Indep
     match (a.zip b).findIdx? (fun p => p.1 != p.2) with
     | some k => .changed k
     | none => if a.length = b.length then .ok else .changed (min a.length b.length)
+
+/-- the dispatcher keeps its part of "no input changes the answers given to other lines": `R` relates
+dispatcher states that answer alike (for the real dispatcher: the same state of the modules, whatever
+the subscriptions); requests that no module carries out lead to a state related to the one before -/
+structure DispNeutral {J σ : Type} (T : Tables) (d : Disp σ J) (R : σ → σ → Prop) : Prop where
+  refl : ∀ a, R a a
+  trans : ∀ a b c, R a b → R b c → R a c
+  same : ∀ s s' t, R s s' → (d s t).1.res = (d s' t).1.res ∧ R (d s t).2 (d s' t).2
+  neutral : ∀ s t, t.action ∉ T.stateActions → R (d s t).2 s
 
 end Frappy.Spec.C07
